@@ -1048,3 +1048,27 @@ impl<'de> serde::de::Visitor<'de> for DataVisitor<'_> {
         Ok(())
     }
 }
+
+#[cfg(stam_verif)]
+impl AnnotationDataSet {
+    /// Verification hook: (key id map, data id map, key->data map in stored order)
+    pub fn verif_dump(
+        &self,
+    ) -> (
+        Vec<(String, usize)>,
+        Vec<(String, usize)>,
+        Vec<(usize, usize)>,
+    ) {
+        let mut key_data = Vec::new();
+        for (k, v) in self.key_data_map.data.iter().enumerate() {
+            for d in v {
+                key_data.push((k, d.as_usize()));
+            }
+        }
+        (
+            self.key_idmap.verif_entries(),
+            self.data_idmap.verif_entries(),
+            key_data,
+        )
+    }
+}
